@@ -72,6 +72,10 @@ fixed("C01", "SHLVL=4294967295", "`SHLVL=4294967295 brush -c true` panicked at s
 finding("C01-huge-brace-range", "C01", "a brace range with an astronomically large bound (`{1..9223372036854775807}`, `{4294967296..3}`) exhausts memory/time (capacity-overflow panic, abort or hang) where bash prints the braces literally",
         all=["huge-range"], why="needs an allocation policy for brace expansion, not a local patch")
 fixed("C01", "brace expansion parsing is no longer exponential in the nesting depth", "`echo {{{{{{{{{{{{{{{{{{{{{{x}}}}}}}}}}}}}}}}}}}}}}` (22 nested braces that do not form a brace expansion) did not finish within a minute; `parse_brace_expansions` took 2x per nesting level (also for `{ { { …` texts reaching it as one word)")
+finding("C01-nested-case-subshell-exponential", "C01", "`case a in a) ( case a in a) ( … ) ;; esac ) ;; esac`: parsing alternating `case` items and subshells takes time exponential in the depth (x2 per level: 16 levels 0.4 s, the corpus's 32+32 levels do not finish; bash: instant) - the optional `(` before a case pattern makes the item ambiguous with a subshell and the PEG parser backtracks over the whole nested body",
+        all=["nest:case", "nest:subshell", "timeout"], why="needs a restructuring of the case-item rule (or caching of the compound-command rules); thorough tier only (depth 64)")
+finding("C01-nested-case-procsub-exponential", "C01", "same with process substitutions between the `case` levels (`case a in a) vcat <(case a in a) … esac) ;; esac`)",
+        all=["nest:case", "nest:procsub", "timeout"], why="same")
 finding("C01-nested-array-index-exponential", "C01", "nested array subscripts `${a[${a[${a[…]}]}]}` take time exponential in the depth (depth 8 does not finish): the word parser re-parses the subscript at every level",
         all=["nest:array-index", "timeout"], why="parser design (re-parsing of subscripts)")
 finding("C01-nested-array-index-exponential-binary", "C01", "same exponential subscript parse seen through the real binary",
